@@ -420,26 +420,34 @@ def St.afterSplit (st : St) (v lid rid : Nat) : St :=
       let r := st.mergeAcross v
       r.1.insertBlock r.2
 
-/-- the in-block case of `IncSolver::satisfy` when no directed active path runs from right to left:
-    `splitBetween` (findMinLMBetween + split), or flag when there is no split point -/
-def St.splitBetween (st : St) (v : Nat) : St :=
+/-- `Block::findMinLMBetween`, first half: recompute the multipliers of the block and search the
+    active path from `v.left` to `v.right` (`split_path`); returns the candidate split constraints
+    (the non-equality constraints traversed left-to-right on the path), `none` if no path was found -/
+def St.searchSplit (st : St) (v : Nat) : St × Option (Array Nat) :=
   let c := st.cons[v]!
   let lb := (st.vars[c.l]!).block
   let fuel := st.vars.size + 1
-  let b := st.blocks[lb]!
-  let d := computeDfdv st lb fuel st.lm #[] b.vars[0]! none
-  let st := (st.setLm d.1).okAnd d.2.2.2
-  let p := splitPath st lb c.r fuel c.l none
-  let st := st.okAnd p.2
-  let cands := (p.1.getD #[]).map fun ci => (ci, st.lm[ci]!)
+  let d := computeDfdv st lb fuel st.lm #[] (st.blocks[lb]!).vars[0]! none
+  let st1 := (st.setLm d.1).okAnd d.2.2.2
+  let p := splitPath st1 lb c.r fuel c.l none
+  (st1.okAnd p.2, p.1)
+
+/-- second half of `splitBetween`: choose the candidate with the smallest multiplier and split there
+    (then re-merge or re-queue `v`), or flag `v` when there is no split point
+    (`UnsatisfiableException`) -/
+def St.splitBetweenWith (st : St) (v : Nat) (path : Option (Array Nat)) : St :=
+  let lb := (st.vars[(st.cons[v]!).l]!).block
+  let cands := (path.getD #[]).map fun ci => (ci, st.lm[ci]!)
   match argMinFirst cands with
-  | none =>
-    -- UnsatisfiableException: no split point
-    (st.flag v).incFlagNoSplit
+  | none => (st.flag v).incFlagNoSplit
   | some (sc, _, gap) =>
-    let st := st.note gap
-    let q := st.splitOn lb sc
+    let q := (st.note gap).splitOn lb sc
     q.1.incSplitBetween.afterSplit v q.2.1 q.2.2
+
+/-- the in-block case of `IncSolver::satisfy` when no directed active path runs from right to left -/
+def St.splitBetween (st : St) (v : Nat) : St :=
+  let r := st.searchSplit v
+  r.1.splitBetweenWith v r.2
 
 /-- body of the `while` loop of `IncSolver::satisfy` for the chosen constraint `v` -/
 def St.process (st : St) (v : Nat) : St :=
